@@ -133,6 +133,8 @@ def _work(spec):
     else:
         for _ in range(spec["reps"]):
             items += attempts(r)
+        for text, kind in programs.long_distance_sources(r)[:1]:
+            items.append(({"main": text}, "main", "loop"))     # a LOOP whose body is longer than 2^15 instructions
     prepared = []
     for files, main, desc in items:
         f = pipeline.front(files, main)
